@@ -1029,6 +1029,8 @@ def c08(ctx):
         return b"a@" + b"a" * 63 + b"." + b"b" * 63 + b"." + b"c" * 63 + b"." + b"d" * r + tail
     addrs += [longest(t_) for t_ in (b".com", b".com.", b".zz", b".zz.", b".test", b".test.", b".example.org", b".example.org.", b".museum.", b".xn--p1ai.")] + \
              [b"a@b.com.", b"a@b.zz.", b"a@x.test.", b"a@example.com.", b"a@localhost."]
+    # IDNA's other label separators as the only separators (the converter maps them to '.'): model's answer under every mask
+    addrs += [("a@mail" + sep_ + t_).encode() for sep_ in ("\u3002", "\uff0e", "\uff61") for t_ in ("com", "org", "zz", "\u0440\u0444")] + ["a@example\u3002org".encode(), "a@x\u3002test".encode()]
     # the policy in force is the one set before the LAST eav_setup: one long-lived object re-configured again and again
     hs = []
     hadd = [hx(x) for x in (b"a@b.com", b"a@b.ru", b"a@x.biz", b"a@example.com", b"a@nic.aero", "a@почта.рф".encode())]
